@@ -71,6 +71,8 @@ def shape2 (x : Frame) : Nat := match x.samples with | none => 0 | some s => s
 def spp (x : Frame) : Nat := match x.samples with | none => 1 | some s => s
 /-- `array.max()` (the array is never empty: rows, cols >= 1) -/
 def max (x : Frame) : Int := match x.data with | [] => 0 | v :: vs => vs.foldl Max.max v
+/-- `array.min()` -/
+def min (x : Frame) : Int := match x.data with | [] => 0 | v :: vs => vs.foldl Min.min v
 /-- well-formed: the right number of values, each a value of the dtype -/
 def WF (x : Frame) : Prop :=
   x.data.length = x.rows * x.cols * x.spp ∧ ∀ v ∈ x.data, x.dtype.lo ≤ v ∧ v ≤ x.dtype.hi
@@ -121,13 +123,14 @@ def decodeCells (nbytes : Nat) (signed : Bool) (stored : Nat) : Nat → List Nat
 /-! ### the codec behind the encapsulated routes -/
 
 structure CodecImpl where
-  enc : Params → Frame → Except ErrKind (List Nat)
+  /-- the encoder is handed the image parameters and, separately, rows, columns and samples per pixel -/
+  enc : Params → Int → Int → Int → Frame → Except ErrKind (List Nat)
   /-- decoding needs the image parameters and the frame shape; the result is the values in C order -/
   dec : Params → (rows cols samples : Nat) → List Nat → Except ErrKind (List Int)
 
-/-- the law a *lossless* codec obeys: whatever it accepts it gives back -/
+/-- the law a *lossless* codec obeys: whatever it accepts (when told the frame's true shape) it gives back -/
 def CodecImpl.Lossless (c : CodecImpl) : Prop :=
-  ∀ p x bytes, c.enc p x = .ok bytes → c.dec p x.rows x.cols x.spp bytes = .ok x.data
+  ∀ p x bytes, c.enc p x.rows x.cols x.spp x = .ok bytes → c.dec p x.rows x.cols x.spp bytes = .ok x.data
 
 /-! ### encode_frame -/
 
@@ -138,16 +141,23 @@ def padEven (bs : List Nat) : List Nat := if bs.length % 2 = 1 then bs ++ [0] el
 def packBits (xs : List Int) : Except ErrKind (List Nat) :=
   if xs.all (fun v => v == 0 || v == 1) then .ok (padEven (pack (xs.map (fun v => v == 1)))) else .error .value
 
-/-- the translated decision tree applied to a frame -/
-def encodeRoute (p : Params) (x : Frame) : Except ErrKind Int :=
+/-- the translated decision tree applied to a frame: (route, and what is handed to the codec: rows, columns,
+    samples per pixel, bits allocated, bits stored, pixel representation) -/
+def encodeRouteFull (p : Params) (x : Frame) : Except ErrKind (Int × Int × Int × Int × Int × Int × Int) :=
   encodeFrameRoute p.ts p.bitsAllocated p.bitsStored p.pi p.pixelRepresentation p.planar
-    x.rows x.cols x.shape2 x.ndim x.dtype.kind x.dtype.itemsize x.dtype.name x.max
+    x.rows x.cols x.shape2 x.ndim x.dtype.kind x.dtype.itemsize x.dtype.name x.max x.min
+
+/-- the route alone -/
+def encodeRoute (p : Params) (x : Frame) : Except ErrKind Int :=
+  match encodeRouteFull p x with
+  | .ok v => .ok v.1
+  | .error e => .error e
 
 def encodeFrame (c : CodecImpl) (p : Params) (x : Frame) : Except ErrKind (List Nat) := do
-  let route ← encodeRoute p x
-  if route = 1 then packBits x.data
-  else if route = 2 then .ok (encodeCells x.dtype.itemsize x.data)
-  else c.enc p x
+  let v ← encodeRouteFull p x
+  if v.1 = 1 then packBits x.data
+  else if v.1 = 2 then .ok (encodeCells x.dtype.itemsize x.data)
+  else c.enc ⟨p.ts, v.2.2.2.2.1, v.2.2.2.2.2.1, p.pi, v.2.2.2.2.2.2, p.planar⟩ v.2.1 v.2.2.1 v.2.2.2.1 x
 
 /-! ### decode_frame -/
 
@@ -240,14 +250,24 @@ structure Req where
   itemsize : Int
   dtypeName : String
   arrayMax : Int
+  arrayMin : Int
 
 def Req.spp (q : Req) : Int := if q.ndim > 2 then q.shape2 else 1
-def Req.route (q : Req) : Except ErrKind Int :=
+def Req.routeFull (q : Req) : Except ErrKind (Int × Int × Int × Int × Int × Int × Int) :=
   encodeFrameRoute q.ts q.ba q.bs q.pi q.pr q.planar q.rows q.cols q.shape2 q.ndim q.kind q.itemsize q.dtypeName q.arrayMax
+    q.arrayMin
+def Req.route (q : Req) : Except ErrKind Int :=
+  match q.routeFull with
+  | .ok v => .ok v.1
+  | .error e => .error e
+
+/-- what must be handed to the codec: the request's own rows, columns, samples, bits and pixel representation -/
+def HandOff (q : Req) (v : Int × Int × Int × Int × Int × Int × Int) : Prop :=
+  v.2 = (q.rows, q.cols, q.spp, q.ba, q.bs, q.pr)
 
 def Req.of (p : Params) (x : Frame) : Req :=
   ⟨p.ts, p.bitsAllocated, p.bitsStored, p.pi, p.pixelRepresentation, p.planar, x.rows, x.cols, x.shape2, x.ndim,
-   x.dtype.kind, x.dtype.itemsize, x.dtype.name, x.max⟩
+   x.dtype.kind, x.dtype.itemsize, x.dtype.name, x.max, x.min⟩
 
 def monoPI (pi : String) : Prop := pi = "MONOCHROME1" ∨ pi = "MONOCHROME2" ∨ pi = "PALETTE COLOR"
 def knownPI (pi : String) : Prop :=
@@ -257,12 +277,19 @@ def knownPI (pi : String) : Prop :=
 def Common (q : Req) : Prop :=
   (q.ndim > 2 → q.planar = some 0 ∨ q.planar = some 1) ∧ (q.pr = 0 ∨ q.pr = 1) ∧ knownPI q.pi ∧ 1 ≤ q.bs ∧ q.bs ≤ q.ba
 
-/-- native (implicit / explicit VR little endian): route 1 = bit packing, 2 = little-endian cells -/
+/-- smallest and largest sample lie in the range of `bs` stored bits (two's complement when `pr = 1`) -/
+def StoredRange (pr bs mn mx : Int) : Prop :=
+  if pr = 1 then -(2 : Int) ^ (bs - 1).toNat ≤ mn ∧ mx ≤ (2 : Int) ^ (bs - 1).toNat - 1
+  else 0 ≤ mn ∧ mx ≤ (2 : Int) ^ bs.toNat - 1
+
+/-- native (implicit / explicit VR little endian): route 1 = bit packing, 2 = little-endian cells; when fewer bits are
+    stored than allocated the samples must fit the stored bits -/
 def NativeOK (q : Req) (r : Int) : Prop :=
   (q.ts = "1.2.840.10008.1.2" ∨ q.ts = "1.2.840.10008.1.2.1") ∧
   ((q.spp = 1 ∧ monoPI q.pi) ∨ (q.spp = 3 ∧ (q.pi = "RGB" ∨ q.pi = "YBR_FULL") ∧ q.planar = some 0)) ∧
   ((q.ba = 1 ∧ (q.rows * q.cols * q.spp) % 8 = 0 ∧ r = 1) ∨
-   (q.ba ≠ 1 ∧ (q.kind = "b" ∨ q.kind = "u" ∨ q.kind = "i") ∧ q.itemsize * 8 = q.ba ∧ (q.kind = "i" ↔ q.pr = 1) ∧ r = 2))
+   (q.ba ≠ 1 ∧ (q.kind = "b" ∨ q.kind = "u" ∨ q.kind = "i") ∧ q.itemsize * 8 = q.ba ∧ (q.kind = "i" ↔ q.pr = 1) ∧
+    (q.bs < q.ba → StoredRange q.pr q.bs q.arrayMin q.arrayMax) ∧ r = 2))
 
 /-- JPEG baseline (lossy; route 3) -/
 def BaselineOK (q : Req) (r : Int) : Prop :=
@@ -302,11 +329,18 @@ structure Representable (p : Params) (x : Frame) : Prop where
   native_cells : p.ts ∈ nativeSyntaxes → p.bitsAllocated ≠ 1 →
     x.dtype.isInt = true ∧ (x.dtype.itemsize : Int) * 8 = p.bitsAllocated ∧ (x.dtype.signed = true ↔ p.pixelRepresentation = 1)
   native_bits : p.ts ∈ nativeSyntaxes → p.bitsAllocated = 1 → (x.rows * x.cols * x.spp) % 8 = 0
+  native_fits : p.ts ∈ nativeSyntaxes → p.bitsAllocated ≠ 1 → p.bitsStored < p.bitsAllocated →
+    StoredRange p.pixelRepresentation p.bitsStored x.min x.max
 
 /-- the values fit the declared stored range (a decoder may discard the bits above) -/
 def FitsStored (p : Params) (x : Frame) : Prop :=
   ∀ v ∈ x.data,
     if p.pixelRepresentation = 1 then -(2 : Int) ^ (p.bitsStored.toNat - 1) ≤ v ∧ v < (2 : Int) ^ (p.bitsStored.toNat - 1)
     else 0 ≤ v ∧ v < (2 : Int) ^ p.bitsStored.toNat
+
+/-- the law of an encoder that validates its input against the parameters it is GIVEN (pydicom's encoders do):
+    it accepts only frames whose samples fit the stored bits -/
+def CodecImpl.Validating (c : CodecImpl) : Prop :=
+  ∀ p x bytes, c.enc p x.rows x.cols x.spp x = .ok bytes → FitsStored p x
 
 end HdVerif.Codec
